@@ -35,6 +35,7 @@ res["suite_passed"], res["suite_failed"] = passed, failed
 rc, out = sh("bash MUTANTS/%s/demo/run_demo.sh" % x, WT)
 res["demo_patched_rc"] = rc
 res["demo_patched_tail"] = out[-600:]
+sh("git apply -R MUTANTS/%s/patch.diff" % x, WT)  # also removes files the patch added
 sh("git checkout -- .", WT)
 st = sh("git status --short", WT)[1]
 res["worktree_after"] = st.strip().splitlines()
@@ -53,6 +54,7 @@ try:
         inc = [l for l in out.splitlines() if l.startswith("INCONCLUSIVE")][:3]
         det[p] = {"rc": rc, "sigs": sigs[:8], "inconclusive": inc, "wall_s": round(time.time() - t0)}
 finally:
+    sh("git -C /repo apply -R %s/patch.diff" % M, "/verif")  # also removes files the patch added
     sh("git -C /repo checkout -- .", "/verif")
 res["checks"] = det
 res["detected"] = any(v["rc"] == 1 for v in det.values())
